@@ -23,8 +23,30 @@ Theorem C29_sources_exact : forall (ops : list op) (s : src) (r : rid),
 Proof. exact sources_exact. Qed.
 Print Assumptions C29_sources_exact.
 
+(* Presence is per route identity: whether route r is installed depends only on the advertisements and
+   withdrawals of r itself and on the source drops - advertisements and withdrawals of OTHER routes
+   (however similar: same prefix, paths that best-path selection treats as equal) never shadow it. *)
+Theorem C29_presence_per_route_identity : forall (ops : list op) (r : rid),
+  In r (rib (run ops)) <-> In r (rib (run (filter (about r) ops))).
+Proof. exact presence_per_route. Qed.
+Print Assumptions C29_presence_per_route_identity.
+
+(* The RIS client glue (risclient.go: serviceLoop/processUpdate/processDownEvent) maps the stream
+   events of client c to AddRoute/RemoveRoute/DropAllBySrc with ONE source key per client, so the
+   merged table holds a route iff some client currently has it from its upstream (an ended stream
+   forgets everything that client had learned). *)
+Theorem C29_client_events_map_consistently : forall (evs : list event) (r : rid),
+  In r (rib (run_events evs)) <-> exists c, In (c, r) (client_run evs).
+Proof. exact client_events_consistent. Qed.
+Print Assumptions C29_client_events_map_consistently.
+
 (* Non-vacuity: a history with a repeated advertisement followed by one withdrawal. *)
 Example C29_example_repeated_add :
   rib (run [Add 1 7; Add 1 7; Remove 1 7])%N = [] /\
   rib (run [Add 1 7; Add 2 7; Remove 1 7])%N = [7%N].
+Proof. split; reflexivity. Qed.
+
+Example C29_example_stream_end :
+  rib (run_events [Adv 0 1; Adv 0 2; Adv 1 2; StreamEnd 0])%N = [2%N] /\
+  rib (run_events [Adv 0 1; Adv 0 2; Adv 1 2; StreamEnd 0; StreamEnd 1; Adv 0 1; Wd 0 1])%N = [].
 Proof. split; reflexivity. Qed.
